@@ -8,7 +8,19 @@ ASSUMPTIONS = {
     "C19": ["nodes are built through an injected constructor (overlay) that sets id, address and last error directly"],
 }
 
+SCEN = {"overlay": "access", "puppet": True, "engine": "scen", "replay_repeat": 5}
+
 PROPS = {
+    "C01": dict(SCEN, pkg="./props/c01", level="exploration",
+                quick={"checks": 1500, "shards": 4, "timeout": 600},
+                thorough={"checks": 12000, "shards": 16, "timeout": 2400},
+                technique="property-based testing (rapid): generated reply/error/silence histories with controlled arrival order; invariants over the recorded quorum-function invocations",
+                level_text="generated histories over an in-process cluster with freshly generated stubs; the recording quorum function and stamped replies make every clause of the property an executable invariant; arrival orders are controlled, interleavings with background calls are sampled"),
+    "C02": dict(SCEN, pkg="./props/c02", level="exploration",
+                quick={"checks": 1500, "shards": 4, "timeout": 600},
+                thorough={"checks": 12000, "shards": 16, "timeout": 2400},
+                technique="property-based testing (rapid): generated histories with a context end at every position, outcome compared with a reference model; bounded-return with a confirmed-hang rule",
+                level_text="reference-model comparison of the outcome of generated histories (quorum / exhaustion / context end, including zero and one targeted node); hangs are confirmed by two goroutine dumps 10 s apart"),
     "C19": {
         "pkg": "./props/c19", "overlay": "access", "level": "exploration", "engine": "pure",
         "technique": "property-based testing (rapid): generated node slices x key sequences against a lexicographic reference model plus strict-weak-order laws",
